@@ -539,4 +539,32 @@ Section SLP.
     apply (c11_sim_run _ _ _ _ _ _ _ _ Rw sl_step_sim sl_observe_sim).
     split; apply R_empty.
   Qed.
+  (* ------------------------------------------------------------ deep observable: tail_ and size_ are consistent after every operation *)
+  Lemma last_addr_ok (s : c11_sl T) : forall cells fuel a x, chain (sl_heap s) a x cells -> length cells < fuel ->
+    c11_sl_last_addr T fuel s a = C11_ok (last (map fst cells) a).
+  Proof.
+    induction cells as [| [b y] r IH]; intros fuel a x H Hf; (destruct fuel; [simpl in Hf; lia |]); cbn [chain c11_sl_last_addr] in *.
+    - rewrite H. reflexivity.
+    - destruct H as [H1 H2]. rewrite H1. rewrite (IH fuel b y H2) by (simpl in Hf; lia).
+      change (map fst ((b, y) :: r)) with (b :: map fst r). rewrite c11_last_cons_default. reflexivity.
+  Qed.
+
+  Lemma deep1_ok s l : Rsl s l -> c11_sl_deep1 T s = C11_ok (true, true).
+  Proof.
+    intros HR. pose proof HR as (cells & [Hc Htl] & Hl). pose proof (length_le_free _ _ Hc) as Hfree.
+    unfold c11_sl_deep1. destruct Hc as (Hch & _ & _ & Hsz).
+    rewrite (last_addr_ok s cells (sl_free s) 0 d Hch Hfree). simpl. rewrite (contents_ok s l HR). simpl.
+    rewrite Htl, Nat.eqb_refl. rewrite Hsz, <- Hl, map_length, Nat.eqb_refl. reflexivity.
+  Qed.
+
+  Theorem c11_sllist_tail_lemma : forall ops tr,
+    c11_spec_run (c11_sls_step T) (fun _ => ((true, true), (true, true))) ([], []) ops = map Some tr ->
+    c11_sl_run_deep T d true (c11_sl_empty T d, c11_sl_empty T d) ops = map C11_ok tr.
+  Proof.
+    intros ops tr. unfold c11_sl_run_deep.
+    apply (c11_sim_run _ _ _ _ _ _ _ _ Rw sl_step_sim).
+    - intros [s0 s1] [l0 l1] [H0 H1]. unfold c11_sl_observe_deep. cbn [fst snd] in *.
+      rewrite (deep1_ok _ _ H0), (deep1_ok _ _ H1). reflexivity.
+    - split; apply R_empty.
+  Qed.
 End SLP.
